@@ -77,8 +77,8 @@ func (c *vC04sConn) RemotePeer() peer.ID { return "peerA" }
 func (c *vC04sConn) Stat() network.ConnStats {
 	return network.ConnStats{Stats: network.Stats{Limited: c.limited}}
 }
-func (c *vC04sConn) Close() error                                  { c.closes++; return nil }
-func (c *vC04sConn) CloseWithError(network.ConnErrorCode) error    { c.closes++; return nil }
+func (c *vC04sConn) Close() error                               { c.closes++; return nil }
+func (c *vC04sConn) CloseWithError(network.ConnErrorCode) error { c.closes++; return nil }
 func (c *vC04sConn) OpenStream(ctx context.Context) (network.MuxedStream, error) {
 	if c.openErr != nil {
 		return nil, c.openErr
